@@ -1,14 +1,46 @@
-/- Model driver: one op per input line, one reply line per op. -/
+/- Model driver: one op per input line, one reply line per op.  The first character of the op
+name selects the engine: p packet, r rpc, k kbucket, q query, l limiter/filter, v ipvote,
+c lru cache, t talk, s service, h handler.  `#case` lines reset all state. -/
 import Driver.PacketDrv
+import Driver.RpcDrv
+import Driver.KbucketDrv
+import Driver.QueryDrv
+import Driver.LimiterDrv
+import Driver.IpvoteDrv
+import Driver.LruDrv
+import Driver.TalkDrv
+import Driver.ServiceDrv
+import Driver.HandlerDrv
 namespace Discv5.Driver
 
 structure St where
-  dummy : Unit := ()
+  rpc : RpcSt := {}
+  kbucket : KbucketSt := {}
+  query : QuerySt := {}
+  limiter : LimiterSt := {}
+  ipvote : IpvoteSt := {}
+  lru : LruSt := {}
+  talk : TalkSt := {}
+  service : ServiceSt := {}
+  handler : HandlerSt := {}
 
 def step (st : St) (line : String) : St × String :=
-  match line.trimAscii.toString.splitOn " " with
+  let toks := line.trimAscii.toString.splitOn " "
+  match toks with
   | "penc" :: args => (st, penc args)
   | "pdec" :: args => (st, pdec args)
+  | op :: _ =>
+    match op.toList.head? with
+    | 'r' => let (s, o) := rpcStep st.rpc toks; ({ st with rpc := s }, o)
+    | 'k' => let (s, o) := kbucketStep st.kbucket toks; ({ st with kbucket := s }, o)
+    | 'q' => let (s, o) := queryStep st.query toks; ({ st with query := s }, o)
+    | 'l' => let (s, o) := limiterStep st.limiter toks; ({ st with limiter := s }, o)
+    | 'v' => let (s, o) := ipvoteStep st.ipvote toks; ({ st with ipvote := s }, o)
+    | 'c' => let (s, o) := lruStep st.lru toks; ({ st with lru := s }, o)
+    | 't' => let (s, o) := talkStep st.talk toks; ({ st with talk := s }, o)
+    | 's' => let (s, o) := serviceStep st.service toks; ({ st with service := s }, o)
+    | 'h' => let (s, o) := handlerStep st.handler toks; ({ st with handler := s }, o)
+    | _ => (st, "bad-op")
   | _ => (st, "bad-op")
 
 partial def loop (h : IO.FS.Stream) (out : IO.FS.Stream) (st : St) : IO Unit := do
